@@ -549,6 +549,13 @@ func (x *Exec) coerceNilPair(a, b *Value) (*Value, *Value) {
 // ifaceEq compares two interface values: equal tags and equal payloads (payloads of value types
 // are compared through their boxed contents when both are statically known).
 func (x *Exec) ifaceEq(st *State, a, b *Value) *Term {
+	// comparison with the nil interface: decided by the type tag alone
+	if b.Tag.Op == "int" && b.Tag.Int.Sign() == 0 {
+		return Eq(a.Tag, IntLit(0))
+	}
+	if a.Tag.Op == "int" && a.Tag.Int.Sign() == 0 {
+		return Eq(b.Tag, IntLit(0))
+	}
 	if a.Boxed != nil && b.Boxed != nil && types.Identical(a.Boxed.T, b.Boxed.T) {
 		return And(Eq(a.Tag, b.Tag), eqValue(a.Boxed, b.Boxed))
 	}
